@@ -28,6 +28,11 @@ type wlRender struct {
 	// a key that is not its name, or a direct assignment the DSL cannot place).
 	// Such calls are part of the history of every later call in the process.
 	Poison string `json:"poison,omitempty"`
+	// Foreign: the names are ones only JSON / protobuf can carry (non-ASCII
+	// letters in several normalisation forms, astral and private-use characters,
+	// invalid UTF-8): the output is not DSL the parser accepts, so the parse-back
+	// clauses are skipped; repeatability, order and inertness of comments stay
+	Foreign bool `json:"foreign,omitempty"`
 }
 
 type renderCtx struct {
@@ -49,12 +54,14 @@ func render(pm *openfgav1.AuthorizationModel, source bool) (out string, errs str
 			errs = "PANIC: " + fmt.Sprint(r)
 		}
 	}()
-	var opts []transformer.TransformOption
+	// the caller keeps its option slices (with spare capacity, as append hands
+	// them out) and passes the same ones to every call of the workload
+	opts := sharedOpts(0)
 	if source {
-		opts = append(opts, transformer.WithIncludeSourceInformation(true))
+		opts = sharedOpts(1)
 	} else if len(pm.GetTypeDefinitions())%2 == 1 {
 		// "not requested" has two spellings: no option, or the option with false
-		opts = append(opts, transformer.WithIncludeSourceInformation(false))
+		opts = sharedOpts(2)
 	}
 	s, err := transformer.TransformJSONProtoToDSL(pm, opts...)
 	if err != nil {
@@ -62,6 +69,21 @@ func render(pm *openfgav1.AuthorizationModel, source bool) (out string, errs str
 	}
 	keepOutput(s)
 	return s, ""
+}
+
+var optSlices [3][]transformer.TransformOption
+
+func sharedOpts(i int) []transformer.TransformOption {
+	if optSlices[i] == nil {
+		optSlices[i] = make([]transformer.TransformOption, 0, 4)
+		switch i {
+		case 1:
+			optSlices[i] = append(optSlices[i], transformer.WithIncludeSourceInformation(true))
+		case 2:
+			optSlices[i] = append(optSlices[i], transformer.WithIncludeSourceInformation(false))
+		}
+	}
+	return optSlices[i]
 }
 
 func renderJSON(js string, source bool) (out string, errs string) {
@@ -73,9 +95,9 @@ func renderJSON(js string, source bool) (out string, errs string) {
 			errs = "PANIC: " + fmt.Sprint(r)
 		}
 	}()
-	var opts []transformer.TransformOption
+	opts := sharedOpts(0)
 	if source {
-		opts = append(opts, transformer.WithIncludeSourceInformation(true))
+		opts = sharedOpts(1)
 	}
 	s, err := transformer.TransformJSONStringToDSL(js, opts...)
 	if err != nil {
@@ -397,7 +419,9 @@ func (c *renderCtx) check0(cfg simrt.Config) ([]mismatch, simrt.Stats, string) {
 			}
 			ma, ea := transformer.TransformDSLToProto(out)
 			mb, eb := transformer.TransformDSLToProto(c.plain)
-			if ea != nil || eb != nil {
+			if wl.Foreign {
+				// not DSL the grammar accepts
+			} else if ea != nil || eb != nil {
 				add("render.output_unparsable", "outputs do not parse: with comments %v, plain %v", ea, eb)
 			} else if !proto.Equal(ma, mb) {
 				add("render.comments_change_model", "commented and plain outputs parse to different models")
@@ -407,6 +431,84 @@ func (c *renderCtx) check0(cfg simrt.Config) ([]mismatch, simrt.Stats, string) {
 		add("render.unrequested_comment", "source information emitted although not requested")
 	}
 	return mm, st, fmt.Sprintf("%d bytes", len(out))
+}
+
+// renameForeign renames relations, conditions and condition parameters (and
+// some types) of m into names beyond ASCII. The documented order is "by name":
+// Go compares strings bytewise, which for valid UTF-8 is code point order.
+func renameForeign(r *rng, m *Model) bool {
+	pool := []string{"é", "e\u0301", "用户", "\U0001d4b6x", "\ue000x", "\uffffx", "\ufffdx", "Ωmega", "ａ", "ß", "ǆ", "z\U0001f600", "z\uffee", "viewer\xfe", "viewer\xff", "\xc3", "a\x80"}
+	used := map[string]bool{}
+	pick := func() string {
+		for tries := 0; tries < 8; tries++ {
+			n := pool[r.intn(len(pool))]
+			if !used[n] {
+				used[n] = true
+				return n
+			}
+		}
+		return ""
+	}
+	rm := map[string]string{}
+	for _, t := range m.Types {
+		for _, rel := range t.Relations {
+			if _, ok := rm[rel.Name]; !ok && r.chance(60) {
+				if n := pick(); n != "" {
+					rm[rel.Name] = n
+				}
+			}
+		}
+	}
+	if len(rm) == 0 {
+		return false
+	}
+	re := func(n string) string {
+		if v, ok := rm[n]; ok {
+			return v
+		}
+		return n
+	}
+	var ren func(e *Expr)
+	ren = func(e *Expr) {
+		if e == nil {
+			return
+		}
+		if e.Rel != "" {
+			e.Rel = re(e.Rel)
+		}
+		if e.Tupleset != "" {
+			e.Tupleset = re(e.Tupleset)
+		}
+		for _, c := range e.Children {
+			ren(c)
+		}
+	}
+	for _, t := range m.Types {
+		for _, rel := range t.Relations {
+			rel.Name = re(rel.Name)
+			if rel.ShareWith != "" {
+				rel.ShareWith = re(rel.ShareWith)
+			}
+			ren(rel.Expr)
+			for i := range rel.Direct {
+				if rel.Direct[i].Rel != "" {
+					rel.Direct[i].Rel = re(rel.Direct[i].Rel)
+				}
+			}
+		}
+	}
+	used = map[string]bool{}
+	for _, c := range m.Conds {
+		for i := range c.Params {
+			if r.chance(50) {
+				if n := pick(); n != "" {
+					c.Expr = strings.ReplaceAll(c.Expr, c.Params[i].Name, "x")
+					c.Params[i].Name = n
+				}
+			}
+		}
+	}
+	return true
 }
 
 func renderFamily(r *rng, nRandom int, seedBase uint64) []namedSched {
@@ -563,6 +665,7 @@ func poisonModel(r *rng, m *Model) string {
 func renderRunOne(b *BatchResult, prop string, seed, run uint64, nRandom int) {
 	r := newRNG(seed, hashStr("rendersim"), hashStr(prop), run)
 	keptOutputs = nil
+	optSlices = [3][]transformer.TransformOption{}
 	m := genRenderModel(r)
 	poison := ""
 	if r.chance(8) {
@@ -571,10 +674,17 @@ func renderRunOne(b *BatchResult, prop string, seed, run uint64, nRandom int) {
 			b.Mix["poison_models_"+poison]++
 		}
 	}
+	foreign := false
+	if poison == "" && r.chance(4) {
+		foreign = renameForeign(r, m)
+		if foreign {
+			b.Mix["foreign_name_models"]++
+		}
+	}
 	b.Workloads++
 	b.keySet[hashStr(modelKey(m)+fmt.Sprint(m.Conds))] = true
 	for _, source := range []bool{false, true} {
-		wl := &wlRender{Variant: "base", Model: m, Source: source, Poison: poison}
+		wl := &wlRender{Variant: "base", Model: m, Source: source, Poison: poison, Foreign: foreign}
 		c := newRenderCtx(wl)
 		if c.isModular && !source {
 			b.Mix["modular_models"]++
